@@ -137,6 +137,32 @@ theorem c09_published_preloaded (cfg : Cfg) (pre : List Nat) (ops : List Op) (k 
 example : (run { correct := 7, signerKey := 10, edKey := some 11 } (initWith [99, 10])
     [.inj (.pass 3), .inj (.pass 7)]).published = [99, 10, 11] := by decide
 
+/-- **The daemon as a whole** (main()'s wiring, regenerated facts + the invariant): in every reachable state,
+while sealed the service port does not listen and both readiness routes report not-ready; once unsealed all
+three flip together. -/
+theorem daemon_of_inv (cfg : Cfg) (s : State) (h : Inv cfg s) :
+    (s.signer = none → serviceUp s = false ∧ readyz s = 503 ∧ readiness s = 503) ∧
+    (s.signer ≠ none → serviceUp s = true ∧ readyz s = 200 ∧ readiness s = 200) := by
+  rcases h with ⟨hn, h0⟩ | ⟨hr, h1⟩
+  · refine ⟨fun _ => ?_, fun h => absurd hn h⟩
+    simp [serviceUp, readyz, readiness, hn, h0]
+  · refine ⟨fun h => ?_, fun _ => ?_⟩
+    · rw [hr.1] at h; cases h
+    · simp [serviceUp, readyz, readiness, hr.1, h1]
+
+theorem c09_daemon (cfg : Cfg) (pre : List Nat) (ops : List Op) :
+    ((run cfg (initWith pre) ops).signer = none →
+      serviceUp (run cfg (initWith pre) ops) = false ∧ readyz (run cfg (initWith pre) ops) = 503 ∧
+      readiness (run cfg (initWith pre) ops) = 503) ∧
+    ((run cfg (initWith pre) ops).signer ≠ none →
+      serviceUp (run cfg (initWith pre) ops) = true ∧ readyz (run cfg (initWith pre) ops) = 200 ∧
+      readiness (run cfg (initWith pre) ops) = 200) :=
+  daemon_of_inv cfg _ (c09_unseal_once_preloaded cfg pre ops)
+
+theorem c09_main_wiring :
+    KM.Gen.mainServiceListensAfterUnseal = true ∧ KM.Gen.mainReadinessSetAfterUnseal = true ∧
+    KM.Gen.mainAdminListensBeforeUnseal = true := by decide
+
 theorem only_correct_aux (cfg : Cfg) (ops : List Op) :
     ∀ s, s.signer = none → (run cfg s ops).signer ≠ none → Op.inj (.pass cfg.correct) ∈ ops := by
   induction ops with
